@@ -153,6 +153,11 @@ func raceReplay(job raceJob) {
 			case "cancel":
 				cancel()
 				admins.Done()
+			case "lnclose":
+				ln.Close()
+				admins.Done()
+			default:
+				admins.Done()
 			}
 		case ev[0] == 'c' && strings.Contains(ev, ":"):
 			var ci, k int
@@ -176,7 +181,16 @@ func raceReplay(job raceJob) {
 		}
 	}
 	time.Sleep(racePause)
-	srv.Close()
+	closed := make(chan struct{})
+	go func() { defer close(closed); defer report(); srv.Close() }()
+	select {
+	case <-closed:
+	case <-time.After(5 * time.Second):
+		// not a timing oracle on a working library: Close has nothing left to wait for here (every gate is
+		// open, every client has hung up). The deterministic verdict comes from engine X; this line makes
+		// the replay report it too instead of hanging.
+		fmt.Printf("RACE-REPLAY-HANG scenario=%s what=Server.Close did not return within 5s after everything was drained\n", job.Sc.Name)
+	}
 	cancel()
 	select {
 	case <-serveDone:
@@ -301,7 +315,9 @@ func c20Races(run *h.Run, tier string) {
 		run.NotExhaustive("the -race binary was not built; the data-race clause was not checked in this run")
 		return
 	}
-	cmd := exec.Command(bin, "-test.run", "^TestCheck$", "-test.timeout", "0", "-test.count", "1")
+	ctx, cancelRun := context.WithTimeout(context.Background(), 15*time.Minute)
+	defer cancelRun()
+	cmd := exec.CommandContext(ctx, bin, "-test.run", "^TestCheck$", "-test.timeout", "0", "-test.count", "1")
 	cmd.Env = append(os.Environ(), "VERIF_PROP=C20RACE", "GORACE=halt_on_error=0")
 	t0 := time.Now()
 	out, err := cmd.CombinedOutput()
@@ -313,6 +329,11 @@ func c20Races(run *h.Run, tier string) {
 	}
 	sigs := parseRaces(text)
 	for _, l := range strings.Split(text, "\n") {
+		if strings.HasPrefix(l, "RACE-REPLAY-HANG") {
+			if _, ok := sigs["replay-hang"]; !ok {
+				sigs["replay-hang"] = l
+			}
+		}
 		if strings.HasPrefix(l, "RACE-REPLAY-PANIC") {
 			p := l[strings.Index(l, "panic=")+6:]
 			if _, ok := sigs["replay-panic:"+p]; !ok {
@@ -330,6 +351,10 @@ func c20Races(run *h.Run, tier string) {
 	}
 	sort.Strings(names)
 	for _, s := range names {
+		if s == "replay-hang" {
+			run.Violate("c20-race", map[string]string{"signature": s, "report": sigs[s]}, h.F("c20-close-hangs", "free-running replay: %s", sigs[s]), nil)
+			continue
+		}
 		if strings.HasPrefix(s, "replay-panic:") {
 			run.Violate("c20-race", map[string]string{"signature": s, "report": sigs[s]}, h.F(s, "the library panicked during a free-running replay: %s", sigs[s]), nil)
 			continue
